@@ -177,3 +177,236 @@ fn mode_extract(src_dir: &str, out: &mut String) {
         out.push('\n');
     }
 }
+
+// ------------------------------------------------------------------------------------------------
+// mode `ast`: full syntax tree (as nested JSON arrays) of the enums and functions of ONE source file,
+// for the function translator (vlib/rs2lean.py). Anything outside the supported subset is dumped as
+// ["unsupported", <tokens>] and reported by the translator as a problem.
+// ------------------------------------------------------------------------------------------------
+fn a(tag: &str, mut rest: Vec<J>) -> J {
+    let mut v = vec![s(tag)];
+    v.append(&mut rest);
+    J::A(v)
+}
+
+fn ast_path(p: &syn::Path) -> J {
+    J::A(p.segments.iter().map(|x| s(&x.ident)).collect())
+}
+
+fn ast_type(t: &syn::Type) -> J {
+    match t {
+        syn::Type::Reference(r) => a("ref", vec![ast_type(&r.elem)]),
+        syn::Type::Array(x) => a("array", vec![ast_type(&x.elem), ast_expr(&x.len)]),
+        syn::Type::Slice(x) => a("slice", vec![ast_type(&x.elem)]),
+        syn::Type::Path(p) if p.qself.is_none() => a("tpath", vec![ast_path(&p.path)]),
+        syn::Type::Tuple(t) if t.elems.is_empty() => a("tunit", vec![]),
+        t => a("unsupported", vec![jn(t)]),
+    }
+}
+
+fn ast_pat(p: &syn::Pat) -> J {
+    match p {
+        syn::Pat::Ident(i) if i.subpat.is_none() => a("pid", vec![s(&i.ident)]),
+        syn::Pat::Wild(_) => a("wild", vec![]),
+        syn::Pat::Rest(_) => a("rest", vec![]),
+        syn::Pat::TupleStruct(t) => a("pts", vec![ast_path(&t.path), J::A(t.elems.iter().map(ast_pat).collect())]),
+        syn::Pat::Path(pp) => a("ppath", vec![ast_path(&pp.path)]),
+        syn::Pat::Or(o) => a("por", vec![J::A(o.cases.iter().map(ast_pat).collect())]),
+        syn::Pat::Reference(r) => ast_pat(&r.pat),
+        syn::Pat::Paren(r) => ast_pat(&r.pat),
+        syn::Pat::Type(t) => ast_pat(&t.pat),
+        syn::Pat::Lit(l) => a("plit", vec![ast_expr(&syn::Expr::Lit(l.clone()))]),
+        p => a("unsupported", vec![jn(p)]),
+    }
+}
+
+fn ast_block(b: &syn::Block) -> J {
+    J::A(b.stmts.iter().map(ast_stmt).collect())
+}
+
+struct ForRange {
+    var: syn::Ident,
+    lo: syn::Expr,
+    hi: syn::Expr,
+    body: Vec<syn::Stmt>,
+}
+
+impl syn::parse::Parse for ForRange {
+    fn parse(input: syn::parse::ParseStream) -> syn::Result<Self> {
+        let var: syn::Ident = input.parse()?;
+        input.parse::<syn::Token![in]>()?;
+        let range: syn::ExprRange = input.parse()?;
+        input.parse::<syn::Token![=>]>()?;
+        let body = syn::Block::parse_within(input)?;
+        match (range.start, range.end, range.limits) {
+            (Some(lo), Some(hi), syn::RangeLimits::HalfOpen(_)) => Ok(ForRange { var, lo: *lo, hi: *hi, body }),
+            _ => Err(input.error("for_range!: expected lo..hi")),
+        }
+    }
+}
+
+fn ast_macro(m: &syn::Macro) -> J {
+    let name = m.path.segments.last().map(|x| x.ident.to_string()).unwrap_or_default();
+    match name.as_str() {
+        "panic" | "unreachable" => a("panic", vec![s(&name)]),
+        "for_range" => match m.parse_body::<ForRange>() {
+            Ok(f) => a(
+                "for_range",
+                vec![s(&f.var), ast_expr(&f.lo), ast_expr(&f.hi), J::A(f.body.iter().map(ast_stmt).collect())],
+            ),
+            Err(e) => a("unsupported", vec![s(format!("for_range!: {}", e))]),
+        },
+        _ => a("unsupported", vec![jn(m)]),
+    }
+}
+
+fn ast_binop(op: &syn::BinOp) -> String {
+    norm(op)
+}
+
+fn ast_expr(e: &syn::Expr) -> J {
+    use syn::Expr as E;
+    match e {
+        E::Lit(l) => match &l.lit {
+            syn::Lit::Int(i) => a("int", vec![s(i.base10_digits())]),
+            syn::Lit::Bool(b) => a("bool", vec![J::B(b.value)]),
+            syn::Lit::Str(x) => a("str", vec![s(x.value())]),
+            l => a("unsupported", vec![jn(l)]),
+        },
+        E::Path(p) if p.qself.is_none() => a("path", vec![ast_path(&p.path)]),
+        E::Call(c) => a("call", vec![ast_expr(&c.func), J::A(c.args.iter().map(ast_expr).collect())]),
+        E::MethodCall(c) => a(
+            "mcall",
+            vec![ast_expr(&c.receiver), s(&c.method), J::A(c.args.iter().map(ast_expr).collect())],
+        ),
+        E::Index(i) => a("index", vec![ast_expr(&i.expr), ast_expr(&i.index)]),
+        E::Binary(b) => a("bin", vec![s(ast_binop(&b.op)), ast_expr(&b.left), ast_expr(&b.right)]),
+        E::Unary(u) => a("un", vec![s(norm(&u.op)), ast_expr(&u.expr)]),
+        E::Reference(r) => a("ref", vec![ast_expr(&r.expr)]),
+        E::Paren(p) => ast_expr(&p.expr),
+        E::Group(p) => ast_expr(&p.expr),
+        E::Let(l) => a("let", vec![ast_pat(&l.pat), ast_expr(&l.expr)]),
+        E::If(i) => a(
+            "if",
+            vec![
+                ast_expr(&i.cond),
+                ast_block(&i.then_branch),
+                i.else_branch.as_ref().map(|(_, e)| ast_expr(e)).unwrap_or(J::Null),
+            ],
+        ),
+        E::Match(m) => a(
+            "match",
+            vec![
+                ast_expr(&m.expr),
+                J::A(m.arms
+                    .iter()
+                    .map(|arm| {
+                        J::A(vec![
+                            ast_pat(&arm.pat),
+                            arm.guard.as_ref().map(|(_, g)| ast_expr(g)).unwrap_or(J::Null),
+                            ast_expr(&arm.body),
+                        ])
+                    })
+                    .collect()),
+            ],
+        ),
+        E::Block(b) if b.label.is_none() => a("block", vec![ast_block(&b.block)]),
+        E::While(w) if w.label.is_none() => a("while", vec![ast_expr(&w.cond), ast_block(&w.body)]),
+        E::Assign(x) => a("assign", vec![ast_expr(&x.left), ast_expr(&x.right)]),
+        E::Repeat(r) => a("repeat", vec![ast_expr(&r.expr), ast_expr(&r.len)]),
+        E::Array(x) => a("array", vec![J::A(x.elems.iter().map(ast_expr).collect())]),
+        E::Return(r) => a("return", vec![r.expr.as_ref().map(|e| ast_expr(e)).unwrap_or(J::Null)]),
+        E::Continue(c) if c.label.is_none() => a("continue", vec![]),
+        E::Break(b) if b.label.is_none() && b.expr.is_none() => a("break", vec![]),
+        E::Tuple(t) if t.elems.is_empty() => a("unit", vec![]),
+        E::Macro(m) => ast_macro(&m.mac),
+        e => a("unsupported", vec![jn(e)]),
+    }
+}
+
+fn ast_stmt(st: &syn::Stmt) -> J {
+    match st {
+        syn::Stmt::Local(l) => {
+            let (init, has_else) = match &l.init {
+                Some(i) => (ast_expr(&i.expr), i.diverge.is_some()),
+                None => (J::Null, false),
+            };
+            if has_else {
+                a("unsupported", vec![jn(st)])
+            } else {
+                a("slet", vec![ast_pat(&l.pat), init])
+            }
+        }
+        syn::Stmt::Expr(e, semi) => a("sexpr", vec![ast_expr(e), J::B(semi.is_some())]),
+        syn::Stmt::Macro(m) => a("sexpr", vec![ast_macro(&m.mac), J::B(m.semi_token.is_some())]),
+        syn::Stmt::Item(i) => a("unsupported", vec![jn(i)]),
+    }
+}
+
+fn mode_ast(path: &str, out: &mut String) {
+    let text = std::fs::read_to_string(path).unwrap();
+    let file = match syn::parse_file(&text) {
+        Ok(f) => f,
+        Err(e) => {
+            J::O(vec![("parse_error", s(e))]).write(out);
+            return;
+        }
+    };
+    let mut enums = vec![];
+    let mut fns = vec![];
+    for it in &file.items {
+        match it {
+            syn::Item::Enum(e) => {
+                let vars = e
+                    .variants
+                    .iter()
+                    .map(|v| {
+                        let fields: Vec<J> = match &v.fields {
+                            syn::Fields::Unnamed(u) => u.unnamed.iter().map(|f| ast_type(&f.ty)).collect(),
+                            syn::Fields::Unit => vec![],
+                            syn::Fields::Named(_) => vec![a("unsupported", vec![jn(&v.fields)])],
+                        };
+                        J::A(vec![s(&v.ident), J::A(fields)])
+                    })
+                    .collect();
+                enums.push(J::O(vec![("name", s(&e.ident)), ("variants", J::A(vars))]));
+            }
+            syn::Item::Fn(f) => {
+                let consts: Vec<J> = f
+                    .sig
+                    .generics
+                    .params
+                    .iter()
+                    .map(|g| match g {
+                        syn::GenericParam::Const(c) => J::A(vec![s("const"), s(&c.ident), ast_type(&c.ty)]),
+                        g => a("unsupported", vec![jn(g)]),
+                    })
+                    .collect();
+                let params: Vec<J> = f
+                    .sig
+                    .inputs
+                    .iter()
+                    .map(|x| match x {
+                        syn::FnArg::Typed(t) => J::A(vec![ast_pat(&t.pat), ast_type(&t.ty)]),
+                        x => a("unsupported", vec![jn(x)]),
+                    })
+                    .collect();
+                let ret = match &f.sig.output {
+                    syn::ReturnType::Default => a("tunit", vec![]),
+                    syn::ReturnType::Type(_, t) => ast_type(t),
+                };
+                fns.push(J::O(vec![
+                    ("name", s(&f.sig.ident)),
+                    ("is_const", J::B(f.sig.constness.is_some())),
+                    ("generics", J::A(consts)),
+                    ("params", J::A(params)),
+                    ("ret", ret),
+                    ("body", ast_block(&f.block)),
+                ]));
+            }
+            _ => {}
+        }
+    }
+    J::O(vec![("enums", J::A(enums)), ("fns", J::A(fns))]).write(out);
+    out.push('\n');
+}
